@@ -260,6 +260,11 @@ AREA_POOL_CIRCULAR = [
     [["s", [25, 30]], ["s", [0, 5]], ["s", [10, 20]]],                       # contact only across the origin, 3 sections
     [["s", [25, 5]], ["s", [5, 10]], ["s", [15, 20]]],                       # spanning + touching + apart
     [["p", [25, 30], [20, 30], "pa"], ["p", [0, 5], [0, 10], "pb"], ["s", [10, 15]]],
+    # a smaller area wholly ahead of the origin inside an origin-spanning one: a child that does not span the
+    # origin in a region that does (its genes are filed under the region's pre-origin section; seed C08-11)
+    [["s", [15, 10]], ["s", [15, 30]]],
+    [["s", [15, 10]], ["s", [20, 25]]],
+    [["p", [25, 5], [15, 10], "pa"], ["p", [20, 25], [15, 30], "pb"]],
 ]
 # (areas, number of trailing areas that are added AFTER create_regions, inside an existing region)
 LATE_POOL_LINEAR = [
